@@ -106,7 +106,7 @@ func WithRegistry(registry *require.Registry) Option {
 
 func (loop *EventLoop) schedule(call goja.FunctionCall, repeating bool) goja.Value {
 	if fn, ok := goja.AssertFunction(call.Argument(0)); ok {
-		delay := call.Argument(1).ToInteger()
+		delay := delayMillis(call.Argument(1))
 		var args []goja.Value
 		if len(call.Arguments) > 2 {
 			args = append(args, call.Arguments[2:]...)
@@ -131,6 +131,22 @@ func (loop *EventLoop) schedule(call goja.FunctionCall, repeating bool) goja.Val
 		return ret
 	}
 	return goja.Undefined()
+}
+
+// delayMillis converts the delay argument of setTimeout/setInterval to whole milliseconds: as a number (so that
+// "1e30", " 80 " or an object with valueOf count like 1e30 and 80 do), rounded up (a timer must not fire before its
+// delay has passed) and saturating at the ends of int64. NaN counts as 0.
+func delayMillis(v goja.Value) int64 {
+	f := math.Ceil(v.ToNumber().ToFloat())
+	switch {
+	case f != f:
+		return 0
+	case f >= math.MaxInt64:
+		return math.MaxInt64
+	case f <= math.MinInt64:
+		return math.MinInt64
+	}
+	return int64(f)
 }
 
 // msToDuration converts a delay in milliseconds, saturating instead of overflowing.
